@@ -405,7 +405,17 @@ func generatedInput(c *Ctx, l *core.Lane) (data []byte, name string, fmap []gen.
 		// beyond the documented limits: up to 200 further tags in one directory
 		opts.Bulk = 40 + x.Intn(160)
 	}
-	if x.Chance(1, 5) {
+	if x.Chance(1, 6) {
+		// arbitrary zone-offset texts of the right shape (sign, two bytes, ':', two bytes): what
+		// a decode keeps per text or per offset must stay bounded
+		for _, p := range []**string{&rec.Offset, &rec.OffsetOrig, &rec.OffsetDig} {
+			if *p != nil {
+				f := x.Sub()
+				t := string([]byte{"+-"[f.Intn(2)], 0x21 + byte(f.Intn(94)), 0x21 + byte(f.Intn(94)), ':', 0x21 + byte(f.Intn(94)), 0x21 + byte(f.Intn(94))})
+				*p = &t
+			}
+		}
+	} else if x.Chance(1, 5) {
 		// zone-offset texts from a small set in which several texts denote the same offset
 		// ("+00:00"/"-00:00", "+02:00"/"+01:60"): what one decode caches per offset must not name
 		// another decode's zone
